@@ -279,11 +279,13 @@ def gen_graph(rng, maxn):
         q = rng.choice(qs)
         i = rng.randint(0, len(qs))
         qs[i:i] = [q, q, q]
-    if rng.random() < 0.5:
+    # V: valid structure, analysed (the analysis fills the cache itself); J: invalid model, analyseModel still called;
+    # I: invalid model, AnalyserModel of a fresh Analyser (the validator is exponential on dense invalid networks)
+    if rng.random() < 0.5 and len(ops) <= 150:
         layout = "V:" + ",".join(str(v) for v in range(n))
     else:
         nc = rng.randint(1, n)
-        layout = "I:" + ",".join(str(rng.randrange(nc)) for _ in range(n))
+        layout = ("J:" if (n <= 16 and len(ops) <= 30) else "I:") + ",".join(str(rng.randrange(nc)) for _ in range(n))
     return {"n": n, "shape": shape, "layout": layout, "ops": ops, "qs": qs}
 
 
@@ -500,7 +502,7 @@ def run(ctx):
         files.append(p)
     couts = run_sharded(drv, files, 3000)
     mouts = run_sharded(mdl, files, 3000)
-    hist = {"shape": {}, "n": {}, "layout": {"V": 0, "I": 0}, "with_destroyed": 0, "analysed(am!=INVALID)": 0,
+    hist = {"shape": {}, "n": {}, "layout": {"V": 0, "I": 0, "J": 0}, "with_destroyed": 0, "analysed(am!=INVALID)": 0,
             "answers_true": 0, "answers_false": 0}
     nontrivial = set()
     nq = 0
